@@ -1,5 +1,18 @@
 def run(ctx):
-    """C02.plan: the resolved plan is internally consistent (reindex strategy vs method vs reduction kind)."""
-    from . import plan_proofs
+    """C02.plan: the resolved plan is internally consistent (reindex strategy vs method vs reduction kind);
+    C02.reindex: block results are brought onto the common groups with each intermediate's own neutral fill."""
+    from ..contracts import finalize as F
+    from ..pyvc.run import add_to_ctx
+    from . import finalize_proofs, plan_proofs
 
-    return plan_proofs.run(ctx, which=("predicates", "validate_reindex", "get_chunk"), pid="C02")
+    note = plan_proofs.run(ctx, which=("predicates", "validate_reindex", "get_chunk"), pid="C02")
+    finalize_proofs._patch()
+    n = 0
+    c = F.reindex_intermediates_contract()
+    ex, obs = add_to_ctx(ctx, c, F.reindex_intermediates_callees())
+    n += len(obs)
+    for c in F.all_reindex():
+        c.prefix = "C02" + c.prefix[3:]
+        ex, obs = add_to_ctx(ctx, c, F.reindex_callees())
+        n += len(obs)
+    return note + f" reindex_intermediates / reindex_ / reindex_numpy: {n} obligations."
